@@ -24,7 +24,7 @@ def gen_cases(tier, seed, salt):
         st = structs[int(sub.integers(len(structs)))]
         spec = S.gen_spec(sub, structure=st, fams=["weibull", "lognormal", "lnnf", "expweib", "gengamma", "normal"], allow_hostile=True)
         alpha = float(10 ** sub.uniform(-6, math.log10(0.3)))
-        mode = str(sub.choice(["explicit", "explicit", "explicit", "too-small", "default-limits" if not three else "explicit", "bimodal" if not three else "explicit", "near-miss" if not three else "too-small", "near-miss" if not three else "explicit", "modes-side-by-side" if not three else "explicit", "four-modes" if not three else "explicit"]))
+        mode = str(sub.choice(["explicit", "explicit", "explicit", "too-small", "default-limits" if not three else "explicit", "bimodal" if not three else "explicit", "near-miss" if not three else "too-small", "near-miss" if not three else "explicit", "modes-side-by-side" if not three else "explicit", "four-modes" if not three else "explicit", "tiny-second-region" if not three else "explicit"]))
         if mode == "near-miss":
             # the grid misses (or exceeds) 1-alpha by a small multiple of alpha: the warning rule at its edge
             alpha = float(10 ** sub.uniform(-6, -2.5))
@@ -120,6 +120,11 @@ def run(case, ctx, which):
     if case["mode"] in ("modes-side-by-side", "four-modes"):
         spec = build_multimodal(rng, "four" if case["mode"] == "four-modes" else "two")
         alpha = float(rng.uniform(0.03, 0.2))
+    if case["mode"] == "tiny-second-region":
+        # unequal modes; alpha is chosen (second pass, below) so that the weaker mode contributes exactly 1, 2 or 3 cells
+        spec = build_multimodal(rng, "two")
+        spec["dims"][1]["params"]["w"] = float(rng.uniform(0.8, 0.93))
+        alpha = 0.3
     model = S.build_virocon(spec)
     ref = S.RefModel(spec)
     d = model.n_dim
@@ -148,7 +153,7 @@ def run(case, ctx, which):
         kw["deltas"] = [d0, float(hi1) / n1]
         ctx.cls("shortfall/alpha", u)
     elif case["mode"] != "default-limits":
-        if case["mode"] in ("modes-side-by-side", "four-modes"):
+        if case["mode"] in ("modes-side-by-side", "four-modes", "tiny-second-region"):
             lims = [(-3.0, 14.0), (-3.0, 17.0)]
         elif case["mode"] == "bimodal":
             lims = [(-6.0, 16.0), (-2.0, 20.0)]
@@ -200,6 +205,38 @@ def run(case, ctx, which):
         _c02(ctx, spec, alpha, con, o, cell_prob, centres, deltas_used, warned, info)
     else:
         _c15(ctx, con, o, centres, warned, info, d)
+    if case["mode"] == "tiny-second-region":
+        # second pass: the alpha at which the region consists of the strong mode plus the k densest cells of the weak one
+        P = np.asarray(cell_prob, float)
+        split = 0.5 * (spec["dims"][1]["params"]["mu1"] + spec["dims"][1]["params"]["mu2"])
+        weak = np.broadcast_to(centres[1][None, :] > split, P.shape)
+        pw = np.sort(P[weak])[::-1]
+        for k_ in (1, 2, 3):
+            thr = pw[k_ - 1]
+            S_ = float(np.sum(P[P >= thr]))
+            below = P[P < thr]
+            if below.size == 0 or pw[k_] >= thr:
+                continue
+            a2 = 1.0 - (S_ + 0.5 * float(np.max(below)))
+            if not (1e-6 < a2 < 0.5):
+                continue
+            hdcmon.reset()
+            hdcmon.JUDGE_SORTER[0] = which == "C15"
+            with warnings.catch_warnings(record=True) as rec2:
+                warnings.simplefilter("always")
+                con2 = HighestDensityContour(model, a2, **kw)
+            warned2 = any(issubclass(w.category, RuntimeWarning) and "1-alpha could not be reached" in str(w.message) for w in rec2)
+            o2 = hdcmon.OBS.get("cumsum", [None])[-1]
+            if o2 is None:
+                ctx.inconcl("cumsum_biggest_until was not observed in the second pass")
+                return
+            centres2 = [np.asarray(c_, float) for c_ in con2.cell_center_coordinates]
+            info2 = {"alpha": a2, "grid": [int(c_.size) for c_ in centres2], "mode": f"second region of {k_} cell(s)", "spec": spec}
+            ctx.cls("weak-region-cells", k_)
+            if which == "C02":
+                _c02(ctx, spec, a2, con2, o2, o2["cell_prob"], centres2, deltas_used, warned2, info2)
+            else:
+                _c15(ctx, con2, o2, centres2, warned2, info2, d)
     if case.get("history") and case.get("spec2") is not None and kw:
         # call history: the SAME model object gets other parameters (what a re-fit does) and a contour is computed on
         # the SAME grid (and again with another alpha): it must be the contour of the current parameters
